@@ -114,6 +114,8 @@ def run_property(prop: str, rule_module, tier: str = 'quick', repo: Repo | None 
                  quiet: bool = False, pyvers=None) -> tuple[int, Ctx]:
     """Run one property's rules on the working tree.  Returns (exit code, ctx)."""
     t0 = time.time()
+    if os.environ.get('PFST_VERIF_NOWRITE'):
+        write = False      # development runs against seeded variants must not overwrite the committed evidence
     seed = int(os.environ.get('VERIF_SEED', '0') or 0)
     out = (lambda *a: None) if quiet else print
     try:
